@@ -49,6 +49,7 @@ STATUS = {
     'default': None,
     'any-error-418': lambda codes: 418 if any(codes) else 200,
     'first-code-table': lambda codes: {0: 200, -32601: 404, -32700: 400, -32600: 422, 1234: 409}.get(codes[0], 500),
+    'success-202': lambda codes: 202 if not any(codes) else 207,
 }
 PATHS = ['/rpc', '/api', '/api/v1']
 
@@ -109,7 +110,12 @@ def gen_cases(ctx):
         for path in PATHS:
             for mi, ct in enumerate(MEDIA):
                 for bname in BODIES:
-                    yield dict(status=sname, path=path, media=mi, body=bname)
+                    yield dict(status=sname, path=path, media=mi, body=bname, endpoint='')
+    # additional endpoints (aiohttp / flask add_endpoint): each has its own dispatcher, the main one must stay untouched
+    for sname in STATUS:
+        for mi, ct in enumerate(MEDIA):
+            for bname in BODIES:
+                yield dict(status=sname, path='/api', media=mi, body=bname, endpoint='/v2')
 
 
 def run_case(case, rec):
@@ -120,8 +126,13 @@ def run_case(case, rec):
     obs = []
     for kind in KINDS:
         log = []
-        integ = Integration(kind, case['path'], status_by_error=sfn)
+        if case.get('endpoint') and kind == 'werkzeug':
+            continue
+        integ = Integration(kind, case['path'], status_by_error=sfn, endpoint=case.get('endpoint', ''))
         register(integ.dispatcher, log, kind == 'aiohttp')
+        if case.get('endpoint'):
+            # the main endpoint serves nothing: a request routed to the wrong dispatcher shows up as 'method not found'
+            pass
         rep = integ.post(body, ct)
         rec.transitions += 1
         c = dict(case, integration=kind, content_type=ct)
@@ -183,8 +194,8 @@ def run_case(case, rec):
 def run(ctx):
     ctx.rule = ('E1: integrations %r x %d media types (each documented type bare / with charset / upper case / extra parameter / leading '
                 'space, near misses, unrelated, empty, missing) x %d bodies (call, unknown method, protocol error, exception, invalid, '
-                'parse error, empty, batch, mixed batch, notification(s), non-UTF-8, BOM, unicode) x 3 status-by-error functions x path '
-                'prefixes %r, all in-process. state = one request sent to all three integrations; non-trivial = documented media type '
+                'parse error, empty, batch, mixed batch, notification(s), non-UTF-8, BOM, unicode) x 4 status-by-error functions x path '
+                'prefixes %r, plus an additional endpoint registered with add_endpoint (aiohttp, flask), all in-process. state = one request sent to all three integrations; non-trivial = documented media type '
                 'with a decodable body (compared with the twin dispatcher)' % (KINDS, len(MEDIA), len(BODIES), PATHS))
     ctx.assumptions += ['aiohttp: a raised web.HTTPException is the response (aiohttp\'s contract); no real sockets / chunked bodies',
                         'werkzeug integration has no status_by_error option: 200 expected', 'non-UTF-8 bodies are expected to be refused with 400 '
@@ -199,7 +210,7 @@ def replay(doc):
     from mc.core import Recorder, jdump
     rec = Recorder()
     c = doc['case']
-    run_case({k: c[k] for k in ('status', 'path', 'media', 'body')}, rec)
+    run_case({k: c[k] for k in ('status', 'path', 'media', 'body', 'endpoint') if k in c}, rec)
     for v in rec.violations[:6]:
         print('VIOLATION-REPLAY signature=%s\n  expected=%s\n  observed=%s' % (v['signature'], jdump(v['expected'])[:300], jdump(v['observed'])[:300]))
     print('replayed: %d violation(s)' % len(rec.violations))
